@@ -1057,8 +1057,11 @@ class Server(utils.EventEmitter):
             # must all be world-readable
             attribute_value = await attribute.read_value(bearer)
             length = len(attribute_value)
-            # Check the attribute value size
-            max_attribute_size = min(bearer.att_mtu - 3, 251)
+            # Check the attribute value size (the last value is truncated to the
+            # space left in the PDU, its length field keeps the full length)
+            if pdu_space_available < 2:
+                break
+            max_attribute_size = min(pdu_space_available - 2, 251)
             if len(attribute_value) > max_attribute_size:
                 # We need to truncate
                 attribute_value = attribute_value[:max_attribute_size]
